@@ -26,4 +26,10 @@ for sid in ids:
     print(sid, pid, r.returncode, ' | '.join(lines)[:230], flush=True)
 subprocess.run(['git', '-C', '/repo', 'worktree', 'remove', '--force', WT], capture_output=True)
 subprocess.run(['git', '-C', '/repo', 'worktree', 'prune'], capture_output=True)
-json.dump(out, open(V + '/seeded/REGRESSION.json', 'w'), indent=1)
+try:
+    prev = json.load(open(V + '/seeded/REGRESSION.json')) if sys.argv[1:] else {}
+except Exception:
+    prev = {}
+prev.update(out)
+json.dump(prev, open(V + '/seeded/REGRESSION.json', 'w'), indent=1, sort_keys=True)
+subprocess.run(['git', '-C', V, 'checkout', '--', 'evidence'], capture_output=True)     # evidence belongs to runs on the unchanged tree
